@@ -210,3 +210,42 @@ def relations_any(h, broadcast="elementwise", ua=False, ub=True):
         h.eq("result shape", np.array(np.asarray(con).shape), np.array([1] if broadcast == "elementwise" else [1, 1]))
         h.holds("contains agrees with the set-theoretic answer", want_con if gc else neg(want_con))
         h.holds("intersects agrees with the set-theoretic answer", want_its if gi else neg(want_its))
+
+
+def relations_mixed(h, broadcast="pairwise"):
+    """arrays mixing a bounded disk and a disk containing infinity (both sides of circle 1 against both sides of circle 2): every entry of the
+    pairwise / elementwise result agrees with the set-theoretic answer"""
+    with _c_to_r_model(h):
+        c2 = h.cvar('bc')
+        r1, r2 = h.var('ar'), h.var('br')
+        c1 = (FC(F.const(0.5), F.const(0.25)) if h.is_sym() else complex(0.5, 0.25))
+        h.assume(r1 > 0, 'radius > 0')
+        h.assume(r2 > 0, 'radius > 0')
+        order_b = (True, False)       # opposite order to A: the pattern of bounded / unbounded entries is not symmetric
+        A = cp.CP1Disk(np.concatenate([_disk(h, c1, r1, u).proj_data for u in (False, True)]))
+        B = cp.CP1Disk(np.concatenate([_disk(h, c2, r2, u).proj_data for u in order_b]))
+        d = c1 - c2
+        d2 = (d.re * d.re + d.im * d.im) if h.is_sym() else abs(d) ** 2
+        h.assume((d2 != (r1 - r2) * (r1 - r2)) if h.is_sym() else abs(d2 - (r1 - r2) ** 2) > 1e-3, 'not internally tangent')
+        h.assume((d2 != (r1 + r2) * (r1 + r2)) if h.is_sym() else abs(d2 - (r1 + r2) ** 2) > 1e-3, 'not externally tangent')
+        con = np.asarray(A.contains(B, broadcast=broadcast))
+        its = np.asarray(A.intersects(B, broadcast=broadcast))
+        inner = d2 < (r1 - r2) * (r1 - r2)
+        D1_in_D2 = (r2 > r1) & inner
+        D2_in_D1 = (r1 > r2) & inner
+        disjoint = d2 > (r1 + r2) * (r1 + r2)
+        T = (r1 > 0) if h.is_sym() else True
+        neg = (lambda x: ~x) if h.is_sym() else (lambda x: not x)
+        want = {(False, False): (D2_in_D1, neg(disjoint)), (False, True): (neg(T), neg(D1_in_D2)),
+                (True, False): (disjoint, neg(D2_in_D1)), (True, True): (D1_in_D2, T)}
+        if broadcast == "pairwise":
+            h.eq("result shape", np.array(con.shape), np.array([2, 2]))
+            cells = [((i, j), (ua, ub)) for i, ua in enumerate((False, True)) for j, ub in enumerate(order_b)]
+        else:
+            h.eq("result shape", np.array(con.shape), np.array([2]))
+            cells = [((i,), (ua, ub)) for i, (ua, ub) in enumerate(zip((False, True), order_b))]
+        for idx, key in cells:
+            wc, wi = want[key]
+            nm = f"{'unbounded' if key[0] else 'bounded'} x {'unbounded' if key[1] else 'bounded'}"
+            h.holds(f"contains[{nm}] agrees with the set-theoretic answer", wc if bool(con[idx]) else neg(wc))
+            h.holds(f"intersects[{nm}] agrees with the set-theoretic answer", wi if bool(its[idx]) else neg(wi))
